@@ -271,7 +271,7 @@ func (f *Frame) applyContract(instr *ssa.Call, fc *FuncContract, callee *ssa.Fun
 	env := f.calleeEnv(fc, callee, sig, args, before, before)
 	cpos := pos
 	for _, r := range fc.Requires {
-		g, err := env.evalBool(r.E)
+		g, err := env.evalGoal(r.E)
 		if err != nil {
 			f.bail("contract %s requires %q: %v", fc.Ref, r.Text, err)
 		}
